@@ -160,8 +160,15 @@ Fixpoint pget (ps : params) (k : str) : option value :=
 
 Definition params_sub (a b : params) : bool :=
   forallb (fun kv => match pget b (fst kv) with Some v => value_eqb v (snd kv) | None => false end) a.
-(* equality of two dicts *)
-Definition params_eqb (a b : params) : bool := params_sub a b && params_sub b a.
+Fixpoint params_same (a b : params) : bool :=
+  match a, b with
+  | [], [] => true
+  | (k, v) :: a', (k', v') :: b' => str_eqb k k' && value_eqb v v' && params_same a' b'
+  | _, _ => false
+  end.
+(* equality of two dicts: the same association list, or mutual inclusion *)
+Definition params_eqb (a b : params) : bool :=
+  params_same a b || (params_sub a b && params_sub b a).
 
 Definition result_eqb (a b : option (N * params)) : bool :=
   match a, b with
